@@ -31,6 +31,20 @@ def handle (op : String) (a r : Json) : Except String Reply := do
                   else if lost then "a datagram of at most the advertised MTU, sent to a listening service of a reachable node, did not arrive"
                   else "a datagram was delivered to a listener other than the one addressed, or more than once"),
            sig := if holds then "" else (if altered then "C02/link/bytes-altered" else if lost then "C02/link/datagram-lost" else "C02/link/wrong-listener") }
+  | "localburst" =>
+    if let some e := optField r "error" then throw s!"harness error: {e.compress}"
+    let n ← getNat a "n"
+    -- does a local send hand the reader its own copy of the bytes?  (regenerated fact)
+    let copies : Bool := Receptor.Facts.send_local_copy = "local:copy"
+    let spec := jObj [("received", jNat n), ("mixed", jNat 0), ("werr", Json.str "")]
+    let m := if copies then spec
+             else jObj [("unmodelled", Json.str "a local send shares the caller's buffer with the reader: what arrives depends on when the caller reuses it")]
+    let holds := canonEq r spec
+    let mixed := (getNat r "mixed").toOption.getD 0
+    pure { m := m, prop := some holds,
+           why := if holds then "" else (if mixed > 0 then s!"{mixed} of {n} datagrams sent to a listener on the same node arrived with bytes of a later send mixed in (the sender reused its buffer after WriteTo had returned)"
+                  else "a burst of datagrams to a listener on the same node did not arrive completely"),
+           sig := if holds then "" else (if mixed > 0 then "C02/link/local-send-shares-the-callers-buffer" else "C02/link/datagram-lost") }
   | _ => throw s!"bad-op link {op}"
 
 end Receptor.Drive.Link
